@@ -24,6 +24,13 @@ import re
 UNITS_RE = re.compile(r'^\s*(\S(?:.*\S)?)\s+Units\s*$')
 
 
+def idstr(v):
+    """a row identifier as the workbook shows it: numbers typed as 1, 2, ... are integers"""
+    if isinstance(v, (float, np.floating)) and float(v).is_integer():
+        return str(int(v))
+    return str(v)
+
+
 class Prop(common.PropertyCheck):
     pid = 'C15'
     rule = ("generated workbooks (1..2 instruments with different channel names, bead rows clustered in 1, 2 or 3 channels, sample rows with mixed units, "
@@ -41,6 +48,9 @@ class Prop(common.PropertyCheck):
         # an instrument with 12 fluorescence channels, all reported and plotted
         yield {'k': 'run', 'plot': True, 'hist': rng.random() < 0.5, 'ninst': 1, 'arity': 1, 'default_out': False, 'rel_out': True, 'seed': rng.randrange(1 << 30), 'inp_name': 'wide', 'wide': 12}
         yield {'k': 'run', 'plot': True, 'hist': False, 'ninst': 2, 'arity': 2, 'default_out': False, 'rel_out': True, 'seed': rng.randrange(1 << 30), 'inp_name': 'twice', 'again': True}
+        # identifiers typed as numbers (1, 2, ...): read back as integers, used for the figure names
+        yield {'k': 'run', 'plot': True, 'hist': True, 'ninst': 1, 'arity': 1, 'default_out': False, 'rel_out': False, 'seed': rng.randrange(1 << 30),
+               'inp_name': 'numeric_ids', 'minimal': 'numeric_ids', 'odd_headers': False}
         for mi, minimal in enumerate(['nobeads', 'nounits']):
             yield {'k': 'run', 'plot': mi == 0, 'hist': True, 'ninst': 1, 'arity': 1, 'default_out': False, 'rel_out': False, 'seed': rng.randrange(1 << 30),
                    'inp_name': 'minimal%d' % mi, 'minimal': minimal, 'odd_headers': False}
@@ -142,9 +152,9 @@ class Prop(common.PropertyCheck):
                 ex.write_fcs('FCFiles/t0.fcs', 'FC002', n=650, seed=case['seed'] % 1000 + 7)
                 # the second instrument has a channel whose name contains blanks; it is calibrated by its own beads row
                 ex.write_fcs('FCFiles/beads2.fcs', 'FC002', kind='beads', n=1400, seed=case['seed'] % 1000 + 2)
-                brows.append(excelgen.beads_row('B4', 'FC002', 'FCFiles/beads2.fcs', channels=('PE-Texas Red-A',), clustering=('PE-Texas Red-A', 'GFP-A'),
-                                                mef={'PE-Texas Red-A': excelgen.MEF_VALUES['FL2']}))
-                srows.append(excelgen.sample_row('T0', 'FC002', 'FCFiles/t0.fcs', {'GFP-A': 'RFI', 'PE-Texas Red-A': 'MEF'}, 'B4', extra={'Strain': 'z', 'Dose': 2}))
+                brows.append(excelgen.beads_row('B4', 'FC002', 'FCFiles/beads2.fcs', channels=('PE-Texas Red (B610)-A',), clustering=('PE-Texas Red (B610)-A', 'GFP-A'),
+                                                mef={'PE-Texas Red (B610)-A': excelgen.MEF_VALUES['FL2']}))
+                srows.append(excelgen.sample_row('T0', 'FC002', 'FCFiles/t0.fcs', {'GFP-A': 'RFI', 'PE-Texas Red (B610)-A': 'MEF'}, 'B4', extra={'Strain': 'z', 'Dose': 2}))
             if case.get('minimal'):
                 # a workbook without bead rows (the Beads sheet holds its header only) and, for 'nounits', without any units cell filled in
                 brows = []
@@ -156,6 +166,9 @@ class Prop(common.PropertyCheck):
                     ex.write_fcs('FCFiles/z0.fcs', 'FC001', n=650, seed=case['seed'] % 1000 + 9, nonneg='zero')
                     ex.datatype = 'I'
                     srows.append(excelgen.sample_row('Z0', 'FC001', 'FCFiles/z0.fcs', {'FL1': 'a.u.', 'FL2': 'RFI'}, None, gate_fraction=0.8, extra={'Strain': 'u', 'Dose': 5}))
+                if case['minimal'] == 'numeric_ids':
+                    for k, r in enumerate(srows):
+                        r['ID'] = k + 1
             beads = pd.DataFrame(brows) if brows else pd.DataFrame(columns=['ID', 'Instrument ID', 'File Path', 'Beads Lot', 'Gate Fraction', 'Clustering Channels', 'FL1 MEF Values'])
             samples = pd.DataFrame(srows)
             if case.get('minimal'):
@@ -167,7 +180,8 @@ class Prop(common.PropertyCheck):
                 # headers as typed in a spreadsheet: a trailing blank, two blanks before "Units" (both match the documented header pattern)
                 samples = samples.rename(columns={'FL2 Units': 'FL2  Units', 'FL1 Units': 'FL1 Units '})
             # a row without identifier (a comment) in each sheet: must be dropped on reading
-            samples = pd.concat([samples, pd.DataFrame([{'ID': np.nan, 'Strain': 'comment without id'}])], ignore_index=True)
+            if case.get('minimal') != 'numeric_ids':         # (a cell left empty would turn a column of integers into floating-point numbers)
+                samples = pd.concat([samples, pd.DataFrame([{'ID': np.nan, 'Strain': 'comment without id'}])], ignore_index=True)
             inp = os.path.join(ex.dir, case.get('inp_name', 'experiment') + '.xlsx')
             with pd.ExcelWriter(inp, engine='openpyxl') as w:
                 inst.reset_index().to_excel(w, sheet_name='Instruments', index=False)
@@ -269,11 +283,11 @@ class Prop(common.PropertyCheck):
                 if list(h.columns[:2]) == ['Sample ID', 'Channel']:
                     bins = [c for c in h.columns if str(c).startswith('Bin ')]
                     for _, r in h.iterrows():
-                        rows_h.append([str(r['Sample ID']), str(r['Channel']), str(r[h.columns[2]]), float(np.nansum(np.asarray(r[bins], dtype=float)))])
+                        rows_h.append([idstr(r['Sample ID']), str(r['Channel']), str(r[h.columns[2]]), float(np.nansum(np.asarray(r[bins], dtype=float)))])
                 res['hist_rows'] = rows_h
                 nev = pd.read_excel(outp, sheet_name='Samples', engine='openpyxl').set_index('ID')['Number of Events']
-                res['nev'] = {str(k): (None if pd.isnull(v) else int(v)) for k, v in nev.items()}
-                res['expected_pairs'] = sorted([str(r['ID']), UNITS_RE.match(c).group(1)] for _, r in samples[samples['ID'].notnull()].iterrows()
+                res['nev'] = {idstr(k): (None if pd.isnull(v) else int(v)) for k, v in nev.items()}
+                res['expected_pairs'] = sorted([idstr(r['ID']), UNITS_RE.match(c).group(1)] for _, r in samples[samples['ID'].notnull()].iterrows()
                                                for c in samples.columns if UNITS_RE.match(c) and not pd.isnull(r[c]))
             bout = pd.read_excel(outp, sheet_name='Beads', engine='openpyxl').set_index('ID')
             for key, wantp in want_params.items():
@@ -293,7 +307,7 @@ class Prop(common.PropertyCheck):
             if case['plot']:
                 want = (['plot_beads/density_hist_B1.png', 'plot_beads/clustering_B1.png'] +
                         ['plot_beads/populations_%s_B1.png' % c for c in ('FL1', 'FL3')] + ['plot_beads/std_crv_%s_B1.png' % c for c in ('FL1', 'FL3')]
-                        if not case.get('minimal') else []) + ['plot_samples/%s.png' % s for s in samples['ID'].dropna()]
+                        if not case.get('minimal') else []) + ['plot_samples/%s.png' % idstr(s) for s in samples['ID'].dropna()]
                 for f in want:
                     p = os.path.join(ex.dir, f)
                     if not (os.path.exists(p) and os.path.getsize(p) > 500 and open(p, 'rb').read(4) == b'\x89PNG'):
